@@ -9,6 +9,7 @@ package main
 //	typedid <Name> <struct>           → "<struct'>"             through ToMesg(IncludeExpandedFields, standard factory) and back
 //	                                                            (--spec: the struct itself when it is InRange)
 //	typednil <Name>                   → "<struct> <message>"    NewXxx(nil) and its ToMesg(nil)
+//	typedmark <Name> <struct> <k> <0|1> → "ok=<0|1> <struct'>"  MarkAsExpandedField(k, flag)
 //	typedseq <Name> <message1> <message2> → "<struct>"          s := NewXxx(&message1); s.Reset(&message2): nothing of message1 survives
 //
 //	<opts>   ::= "o:nil" | "o:" ("i"|"-") "," ("std"|"zero"|"unk"|"alt"|"nil")
@@ -45,6 +46,7 @@ func init() {
 	executors["typedid"] = execTypedID
 	executors["typednil"] = execTypedNil
 	executors["typedseq"] = execTypedSeq
+	executors["typedmark"] = execTypedMark
 }
 
 // ---------------------------------------------------------------- custom factories
@@ -316,6 +318,27 @@ func execTypedSeq(args []string) string {
 	s := t.newStruct(&m1)
 	s.MethodByName("Reset").Call([]reflect.Value{reflect.ValueOf(&m2)})
 	return printStruct(t, s)
+}
+
+// typedmark <Name> <struct> <k> <0|1> → "ok=<0|1> <struct'>": MarkAsExpandedField(k, flag) on the parsed struct
+func execTypedMark(args []string) string {
+	if len(args) != 4 || (args[3] != "0" && args[3] != "1") {
+		return "bad-op"
+	}
+	t := typedTable(args[0])
+	if t == nil {
+		return "bad-op"
+	}
+	s, ok := parseStruct(t, args[1])
+	k, err := strconv.Atoi(args[2])
+	if !ok || err != nil || k < 0 || k > 255 || strconv.Itoa(k) != args[2] {
+		return "bad-op"
+	}
+	res := 0
+	if t.markAsExpanded(s, k, args[3] == "1") {
+		res = 1
+	}
+	return fmt.Sprintf("ok=%d %s", res, printStruct(t, s))
 }
 
 // ---------------------------------------------------------------- generators
@@ -596,6 +619,14 @@ func genTyped(emit func(string), tier string, rng *Rng) {
 				}
 			}
 			txt := printStruct(t, s)
+			if j%4 == 0 { // the marking API on this struct: an eligible number, any number
+				k := r.Intn(256)
+				if len(t.slots) > 0 && r.Bool() {
+					k = t.slots[r.Intn(len(t.slots))].num
+				}
+				emit(fmt.Sprintf("typedmark %s %s %d %d", t.name, txt, k, r.Intn(2)))
+				count("mark-api")
+			}
 			emit(fmt.Sprintf("typedid %s %s", t.name, txt))
 			emit(fmt.Sprintf("typedsm %s %s %s", t.name, typedOptStrings[r.Intn(len(typedOptStrings))], txt))
 			if wild {
